@@ -150,10 +150,10 @@ PROPS = {
         'trusted': ['plugin/federation/verif_hooks.go'],
     },
     'C17': {
-        'suites': [('fedr', 2500, 200000)],
+        'suites': [('fedr', 2500, 200000), ('fedq', 600, 20000)],
         'rule': 'fedr: sendMessage on a Federation with 1-3 injected peers and generated subscription distributions (plain, wildcard, $, shared groups spanning nodes) consistent with the federation tree, 1-6 publishes (retained / empty payload / through OnMsgArrived or OnWillPublish wrappers), '
                 'receiver side applying message events; observables: events appended per peer queue, drop flag, rewritten iteration options, receiver publishes and retained store',
-        'assumptions': ['the federation tree equals the peers local subscriptions (stable state, as the statement requires)'],
+        'assumptions': ['the federation tree equals the peers local subscriptions (stable state, as the statement requires); that the event stream establishes this state is C16, whose suite fedq (emission of subscription events from the local subscription index, stream, application) is run by this check as well'],
         'trusted': ['plugin/federation/verif_hooks.go'],
     },
     'C19': {
